@@ -225,6 +225,10 @@ def parse_unified(diff):
             want_old, want_new = ol, nl
             while i < len(lines) and (want_old > 0 or want_new > 0):
                 h = lines[i]
+                if h.startswith("--- ") and i + 1 < len(lines) and lines[i + 1].startswith("+++ ") and want_old <= 1 and want_new <= 1:
+                    break          # next file's header (the hunk was one stripped context line short, see below)
+                if h.startswith("rename from "):
+                    break
                 if h.startswith(" ") or h in ("\n", "\r\n"):
                     want_old -= 1
                     want_new -= 1
@@ -238,6 +242,12 @@ def parse_unified(diff):
                     raise DiffError("unexpected line in hunk: %r" % h)
                 body.append(h)
                 i += 1
+            if want_old == 1 and want_new == 1 and (i >= len(lines) or lines[i] == "" or lines[i].startswith(("--- ", "rename "))):
+                # jedi's line model has an empty last line after a final newline; difflib emits it as a context line
+                # consisting of one space, which get_diff() strips ("there's a space at the end of the diff").  GNU
+                # patch accepts the result; the applier re-adds that empty context line.
+                body.append(" ")
+                want_old = want_new = 0
             if want_old != 0 or want_new != 0:
                 raise DiffError("hunk line counts do not add up (%d old, %d new left)" % (want_old, want_new))
             cur["hunks"].append((os_, ol, ns, nl, body))
